@@ -37,6 +37,9 @@ def structural():
     yield "heavy-fanout-net", {"fanout"}, _b({"a": I, "b": I, "s": ("xor", ["a", "b"]), "l1": ("not", ["s"]), "l2": ("buf", ["s"]), "l3": ("and", ["s", "a"]), "l4": ("or", ["s", "b"]), "l5": ("nand", ["s", "l2"]),
                                               "l6": ("xnor", ["s", "l1", "l2"]), "o": ("or", ["l1", "l3", "l4", "l5", "l6"])}, ["o", "l6"])
     yield "reconvergence-through-inverters", {"reconv"}, _b({"a": I, "b": I, "n": ("not", ["a"]), "p": ("and", ["a", "b"]), "q": ("and", ["n", "b"]), "o": ("or", ["p", "q"]), "z": ("and", ["a", "n"])}, ["o", "z"])
+    yield "buffer-and-inverter-chains", {"chains"}, _b({"a": I, "b": I, "c": I, "g": ("and", ["a", "b", "c"]), "n1": ("not", ["g"]), "n2": ("not", ["n1"]), "b1": ("buf", ["g"]), "n3": ("not", ["b1"]),
+                                                       "b2": ("buf", ["n3"]), "n4": ("not", ["b2"]), "n5": ("not", ["n4"]), "o": ("or", ["n2", "n5"])}, ["o", "n2", "n3", "b2"])
+    yield "chain-declared-downstream-first", {"chains"}, _b({"o": ("xor", ["n3", "a"]), "n3": ("not", ["n2"]), "n2": ("buf", ["n1"]), "n1": ("not", ["g"]), "g": ("nor", ["a", "b"]), "a": I, "b": I}, ["o", "n2"])
     yield "x-constant", {"x"}, _b({"a": I, "u": ("x", []), "g": ("or", ["a", "u"])}, ["g"])
 
 
